@@ -74,6 +74,19 @@ def group_runs(g, tier):
             runs.append(W(cfg, 'cycles', lts='small', names='prefix', walks=n // 2 if q else n * 20, split=True, lower_only=True))
         runs.append(W('ovl(mem,mem)', 'cycles', lts='deep', names='dotted', walks=20 if q else 800, split=True))
         return runs
+    if g == 'handles':
+        def H(cfg, names='ascii', b=1, walks=60, length=60, lower=False, depth=1, extreme=True, inst='MC_Handles_q'):
+            return dict(kind='handles', cfg=cfg, names=names, b=b, walks=walks, len=length, lower=lower, depth=depth, extreme=extreme, inst=inst, tspec='Trace_Handles')
+        k = 1 if q else 12
+        runs = [H('mem', walks=120 * k), H('phys', walks=80 * k), H('mem', b=4096, names='multi', walks=30 * k), H('phys', b=8193, names='dotted', walks=20 * k),
+                H('alt(zr,mem)', walks=30 * k, depth=2), H('alt(zr/zs,phys)', walks=20 * k, b=3),
+                H('ovl(mem,mem)', walks=60 * k), H('ovl(mem,mem)', walks=60 * k, lower=True), H('ovl(mem,mem,mem)', walks=30 * k, lower=True, depth=2, b=2),
+                H('ovl(phys,phys)', walks=20 * k, lower=True), H('ovl(phys,mem)', walks=20 * k, lower=True, b=8192, names='prefix'),
+                H('alt(zr,ovl(mem,mem))', walks=20 * k, depth=2), H('ovl(alt(zu,mem),mem)', walks=20 * k, lower=True)]
+        if not q:
+            for b in (2, 2731, 8191, 16385, 21846, 65537):
+                runs += [H('mem', b=b, walks=60), H('phys', b=b, walks=40), H('ovl(mem,phys)', b=b, walks=30, lower=True)]
+        return runs
     if g == 'join':
         return [dict(kind='join', inst='MC_Join_q' if q else 'MC_Join_t', random=3000 if q else 200000, chains=3000 if q else 100000, tspec='Trace_Join')]
     raise ToolError('unknown group ' + g)
@@ -121,6 +134,19 @@ def run_group(g, tier, seed, use_cache=True):
             if r.get('lower_only'):
                 args.append('--lower-only')
             s = harness(args)
+        elif r['kind'] == 'handles':
+            mc = run_mc(r['inst'], r['inst'])
+            if not mc['ok']:
+                raise ToolError('model checking of %s failed:\n%s' % (r['inst'], mc.get('tail', '')))
+            mcs[r['inst']] = mc
+            hl = ensure_lts(r['inst'], r['inst'] + '_emit', tags=('EDGE', 'STATE'))
+            args = ['handles', '--lts', hl, '--cfg', r['cfg'], '--names', r['names'], '--b', r['b'], '--seed', seed * 1000 + i, '--walks', r['walks'],
+                    '--len', r['len'], '--out', out, '--depth', r['depth']]
+            if r['lower']:
+                args.append('--lower-file')
+            if r['extreme']:
+                args.append('--extreme')
+            s = harness(args)
         elif r['kind'] == 'join':
             mc = run_mc(r['inst'], r['inst'])
             if not mc['ok']:
@@ -167,6 +193,11 @@ def run_group(g, tier, seed, use_cache=True):
             ops = []
             for n, line in enumerate(f):
                 e = json.loads(line)
+                if e['ev'] in ('hinit', 'hcall'):
+                    ops.append({'cfg': e['cfg'], 'file0': e['file0']} if e['ev'] == 'hinit' else {'o': {k: v for k, v in e['o'].items() if v not in ('', 0, [])}, 'res': e['res'], 'fresh': e['fresh'].get('v')})
+                    if len(ops) > 10:
+                        break
+                    continue
                 if e['ev'] in ('join', 'chain'):
                     ops.append({k: e[k] for k in e if k in ('ev', 'base', 'arg', 'steps')} | {'sync': e['sync'].get('path'), 'c': e['sync']['c']})
                     if len(ops) > 5:
@@ -202,12 +233,14 @@ PROPS = {
     'C02': dict(groups=['tree']),
     'C03': dict(groups=['tree', 'alt', 'ovl']),
     'C05': dict(groups=['tree', 'alt', 'ovl']),
-    'C12': dict(groups=['tree', 'alt', 'ovl']),
-    'C13': dict(groups=['tree', 'alt', 'ovl']),
+    'C12': dict(groups=['tree', 'alt', 'ovl', 'join']),
+    'C13': dict(groups=['tree', 'alt', 'ovl', 'join', 'handles']),
     'C07': dict(groups=['alt']),
     'C08': dict(groups=['ovl']),
     'C09': dict(groups=['ovl']),
     'C06': dict(groups=['join']),
+    'C14': dict(groups=['handles']),
+    'C04': dict(groups=['handles', 'tree', 'ovl']),
     'C10': dict(groups=['ovl_cycles', 'ovl']),
 }
 
@@ -309,6 +342,16 @@ MANIFEST_TEXT = {
                 'a resurrected entry, a non-empty re-created directory or a visible marker fails the effect/observers conjuncts.',
                 note=_NOTE + ' Names ending in _wo and .whiteout are never generated (reserved by the overlay, excluded by the property).',
                 technique='TLA+ Level-A trace validation of removal/re-creation cycles over pre-populated lower layers', ref='DESIGN.md 6 C10'),
+    'C14': dict(level='TLC explores every reachable state of the bounded read/write cursor machines (VfsHandles: buffers <= 3 symbols, seeks from Start/Current/End with negative, zero and '
+                'past-the-end offsets, read sizes 0/1/2/5, remove while open) and emits the LTS; the harness walks it coverage-guided (untested edges first) on handles obtained from memory, physical, '
+                'altroot and overlay (incl. copy-up from a lower layer) with block sizes scaling offsets and lengths, ending walks with extreme-offset seeks; TLC validates every return value and '
+                'what a fresh reader sees after every call (Trace_Handles).',
+                note='Trusted: TLC; block concretisation (uniform block size is a homomorphism for read/write/seek). Seeks on append handles are not generated on physical files (O_APPEND, excluded by the property). Short reads are accepted if non-empty and in order.',
+                technique='TLA+ cursor-machine model checking (MC_Handles) + LTS replay on real handles + TLC trace validation', ref='DESIGN.md 6 C14'),
+    'C04': dict(level='Byte fidelity is decided by three TLC-validated sources: (1) the handle LTS walks (write/seek/flush/append/drop scripts; published bytes re-read by a fresh reader after every call, metadata length), '
+                'with block sizes 1..65537 so that abstract lengths <= 4 cover concrete lengths around the 8 KiB copy buffer and above 64 KiB, non-UTF-8 patterns, overlay copy-up from lower layers; '
+                '(2) the tree/overlay walks whose effect conjunct compares the bytes of every file of the universe after create/append/copy/move with rotating read-buffer sizes; (3) DirLenZero in ObsMatches.',
+                note=_NOTE, technique='TLA+ writer machine (VfsHandles) + Level-A content transformers; TLC trace validation of bytes', ref='DESIGN.md 6 C04'),
     'C12': dict(level=_LVL + 'Conjunct errpath: every error of every call and observer names a path of the caller namespace related to the call; pinned classes are part of conjunct class.',
                 note=_NOTE, technique='TLA+ ErrPathOK on every failing call/observer of every trace event', ref='DESIGN.md 6 C12'),
     'C13': dict(level=_LVL + 'Every harness call runs under catch_unwind; panic is an outcome class no trace action accepts.',
